@@ -37,11 +37,17 @@ type Op struct {
 	K int    `json:"k"`
 	V string `json:"v,omitempty"`
 	M string `json:"m,omitempty"`
+	// R: the mock is requested through the handle b.Interface(&v) returned the first time this builder
+	// looked the variable up (kept by the test across Resets), not through a fresh lookup
+	R bool `json:"kept_handle,omitempty"`
 }
 
 func (o Op) String() string {
 	if o.K >= kGC {
 		return kindNames[o.K]
+	}
+	if o.R {
+		return fmt.Sprintf("mock(%s.%s,%s,through the kept handle)", o.V, o.M, kindNames[o.K])
 	}
 	return fmt.Sprintf("mock(%s.%s,%s)", o.V, o.M, kindNames[o.K])
 }
@@ -118,7 +124,7 @@ func ptrOf(v string) interface{} {
 		return &t.V
 	case "U":
 		return &t.U
-	case "L1", "L2":
+	case "L1", "L2", "Big":
 		return t.Ptr(v)
 	}
 	panic("bad var")
@@ -141,6 +147,14 @@ func run(real bool, ops []Op, vars []string) (fail string, judged, unjudged int)
 		vk.Try(func() { b.Reset() })
 		t.SetInitial(false)
 	}()
+	handles := map[string]*mocker.CachedInterfaceMocker{}
+	lookup := func(v string) *mocker.CachedInterfaceMocker {
+		h := b.Interface(ptrOf(v))
+		if handles[v] == nil {
+			handles[v] = h
+		}
+		return h
+	}
 	for i, op := range ops {
 		code := 10000 * (i + 1)
 		var before [2]uintptr
@@ -152,17 +166,26 @@ func run(real bool, ops []Op, vars []string) (fail string, judged, unjudged int)
 				mockWide(b, op, code)
 				return
 			}
+			var im *mocker.CachedInterfaceMocker
+			if op.K < kGC {
+				if op.R {
+					im = handles[op.V]
+				} else {
+					im = lookup(op.V)
+				}
+			}
 			switch op.K {
 			case kApply:
-				b.Interface(ptrOf(op.V)).Method(op.M).Apply(func(ctx *mocker.IContext, a int) int { return a + code })
+				im.Method(op.M).Apply(func(ctx *mocker.IContext, a int) int { return a + code })
 			case kAsReturn:
-				b.Interface(ptrOf(op.V)).Method(op.M).As(func(ctx *mocker.IContext, a int) int { return 0 }).Return(code)
+				im.Method(op.M).As(func(ctx *mocker.IContext, a int) int { return 0 }).Return(code)
 			case kAsWhen:
-				b.Interface(ptrOf(op.V)).Method(op.M).As(func(ctx *mocker.IContext, a int) int { return 0 }).When(7).Return(code)
+				im.Method(op.M).As(func(ctx *mocker.IContext, a int) int { return 0 }).When(7).Return(code)
 			case kGC:
 				gc()
 			case kDrop:
 				b = nil
+				handles = map[string]*mocker.CachedInterfaceMocker{}
 				gc()
 				b = mocker.Create()
 			case kReset:
@@ -359,8 +382,18 @@ func run(real bool, ops []Op, vars []string) (fail string, judged, unjudged int)
 func wellFormed(ops []Op) bool {
 	type key struct{ v, m string }
 	clause := map[key]bool{}
+	looked := map[string]bool{}
 	for _, o := range ops {
 		k := key{o.V, o.M}
+		if o.K < kGC {
+			if o.R && !looked[o.V] {
+				return false // no handle to keep yet
+			}
+			looked[o.V] = true
+		}
+		if o.K == kDrop {
+			looked = map[string]bool{}
+		}
 		switch o.K {
 		case kApply:
 			clause[k] = false
@@ -477,8 +510,29 @@ func alphabet(thorough bool) ([]Op, []string) {
 	if thorough {
 		a = append(a, Op{K: kAsReturn, V: "L1", M: "Aaa"}, Op{K: kAsReturn, V: "L2", M: "Zzz"})
 	}
+	// an interface with 120 methods: positions at and beyond the documented limit of 99
+	vars = append(vars, "Big")
+	a = append(a, Op{K: kApply, V: "Big", M: "M098"}, Op{K: kApply, V: "Big", M: "M119"})
+	if thorough {
+		a = append(a, Op{K: kAsReturn, V: "Big", M: "M000"}, Op{K: kAsReturn, V: "Big", M: "M099"})
+	}
+	// mocks requested through the handle kept from the builder's first lookup of a variable (typically across a
+	// Reset). In the enumerated alphabet this is done for one method of W only: with two methods goom loses the
+	// first one (fixedHistories below, a recorded finding).
+	vars = append(vars, "W")
+	a = append(a, Op{K: kApply, V: "W", M: "A"}, Op{K: kApply, V: "W", M: "A", R: true})
+	if thorough {
+		a = append(a, Op{K: kAsReturn, V: "W", M: "A", R: true})
+	}
 	a = append(a, Op{K: kGC}, Op{K: kDrop}, Op{K: kReset}, Op{K: kAssign}, Op{K: kAssignNil})
 	return a, vars
+}
+
+// fixedHistories: two methods of one variable mocked through a handle kept across a Reset, in both orders of
+// the two kinds of mock.
+var fixedHistories = [][]Op{
+	{{K: kApply, V: "X", M: "A"}, {K: kReset}, {K: kApply, V: "X", M: "A", R: true}, {K: kAsReturn, V: "X", M: "B", R: true}},
+	{{K: kAsReturn, V: "X", M: "B"}, {K: kReset}, {K: kAsReturn, V: "X", M: "B", R: true}, {K: kApply, V: "X", M: "A", R: true}},
 }
 
 // Run is the worker entry point.
@@ -554,8 +608,27 @@ func Run(c *vk.Ctx) {
 		}
 		rec(nil)
 	}
+	// fixed histories outside the enumerated alphabet
+	for _, h := range fixedHistories {
+		mine := c.Mine(idx)
+		idx++
+		if !mine {
+			continue
+		}
+		f, j, u := run(false, h, vars)
+		c.Res.Evaluations += int64(j)
+		c.Res.Unjudged += int64(u)
+		c.Res.Traces++
+		c.Res.States++
+		c.Res.Transitions += int64(len(h))
+		c.Res.Nontrivial++
+		if f != "" {
+			c.Violate(fmt.Sprintf("init_real=false hist=[%s] class=%s", opsString(h), class(f)), f, Case{false, h, opsString(h)})
+		}
+	}
 	c.Res.Extra["depth"] = depth
 	c.Res.Extra["alphabet"] = len(alpha)
+	c.Res.Extra["fixed_histories"] = len(fixedHistories)
 	c.Finish()
 }
 
